@@ -79,10 +79,11 @@ def run_case(case):
         return orig_opt(self, variable_idx, update_domain_fct, processor_idx, solution_queue)
 
     box = {}
+    active = dict(victims)
+    ms = MultiprocessingSolver(solvers, log_level="CRITICAL")
 
     def target():
         try:
-            ms = MultiprocessingSolver(solvers, log_level="CRITICAL")
             if case["op"] == "enum":
                 box["result"] = [nx.vec(s) for s in ms.solve()]
             elif case["op"] == "min":
@@ -97,6 +98,18 @@ def run_case(case):
     import multiprocessing
 
     BacktrackSolver.solve_and_queue, BacktrackSolver.optimize_and_queue = solve_and_queue, optimize_and_queue
+    # the same MultiprocessingSolver object may have served fault-free calls before the one in which a worker dies
+    for _ in range(case.get("earlier_calls", 0)):
+        victims.clear()
+        warm = threading.Thread(target=target, daemon=True)
+        warm.start()
+        warm.join(DEADLINE_S)
+        if warm.is_alive() or "raised" in box:
+            BacktrackSolver.solve_and_queue, BacktrackSolver.optimize_and_queue = orig_solve, orig_opt
+            box["raised"] = "fault-free earlier call did not return normally: %s" % box.get("raised", "blocked")
+            return pc, box, warm.is_alive(), 0.0, 0, len(solvers)
+        box.clear()
+    victims.update(active)
     t0 = time.time()
     th = threading.Thread(target=target, daemon=True)
     try:
@@ -121,7 +134,7 @@ def run_case(case):
 def check(case):
     tags = ["op:" + case["op"], "k:%d" % case["k"], "victims:%d" % len(case["victims"])] + ["kind:" + v[2] for v in case["victims"]] + ["point:%s" % v[1] for v in case["victims"]]
     pc, box, blocked, elapsed, alive, nworkers = run_case(case)
-    what = "workers=%d victims=%s op=%s" % (nworkers, case["victims"], case["op"])
+    what = "workers=%d victims=%s op=%s%s" % (nworkers, case["victims"], case["op"], " after %d fault-free call(s) on the same MultiprocessingSolver" % case["earlier_calls"] if case.get("earlier_calls") else "")
     if blocked:
         return Verdict(False, "the call is still blocked %.0f s after a worker died (%s; all the workers are %s); the fault-free call takes well under a second" % (elapsed, what, "gone" if alive == 0 else "%d still alive" % alive), True, tags)
     if "raised" in box:
@@ -165,6 +178,15 @@ def all_cases(tier, seed):
                         n, w, cons = variants[(seed + i) % len(variants)]
                         i += 1
                         cases.append({"n": n, "w": max(w, k), "cons": cons, "k": k, "victims": [[a, pa, KINDS[i % 3]], [b, pb_, KINDS[(i + 1) % 3]]], "op": op})
+    # the solver object already served fault-free calls (same solvers, same parent object)
+    for k in (1, 2, 3):
+        for victim in {0, k - 1}:
+            for point in (0, "marker"):
+                for kind in KINDS:
+                    for op in ("enum", "min"):
+                        n, w, cons = variants[(seed + i) % len(variants)]
+                        i += 1
+                        cases.append({"n": n, "w": max(w, k), "cons": cons, "k": k, "victims": [[victim, point, kind]], "op": op, "earlier_calls": 1 + i % 2})
     # control: no fault at all must return the full result (guards the harness itself)
     for k in (1, 2, 3):
         cases.append({"n": 3, "w": 3, "cons": "none", "k": k, "victims": [], "op": "enum"})
